@@ -155,3 +155,17 @@ Proof.
   unfold ip. apply asum_ext. intros b. rewrite zstring_diag, <- Cnorm2_conj. ring.
 Qed.
 End Mean.
+
+(* the eigenvalue sign used above is what the reconstructor returns for the outcome word (model/Reconstruct.v) *)
+From Coq Require Import NArith.
+From QPM Require Import Reconstruct.
+Lemma zsign_fold l bits :
+  zsign l (fun i => N.testbit bits (N.of_nat i))
+  = RtoC (IZR (fold_right (fun ip a => ((if N.testbit bits (N.of_nat (fst ip)) then (-1) else 1) * a)%Z) 1%Z l)).
+Proof.
+  induction l as [|[i p] l IH]; [reflexivity|]. cbn [zsign fold_right fst]. rewrite IH, mult_IZR.
+  destruct (N.testbit bits (N.of_nat i)); unfold RtoC, Cmul, Copp, C1; cbn; f_equal; ring.
+Qed.
+Theorem zsign_is_the_reconstructor_value l bits : NoDup (keys l) ->
+  zsign l (fun i => N.testbit bits (N.of_nat i)) = RtoC (IZR (reconstruct l bits)).
+Proof. intros H. rewrite (reconstruct_is_eigenvalue_product l bits H). apply zsign_fold. Qed.
